@@ -118,9 +118,10 @@ void h_buffer_push_bytes(JanetBuffer *buffer, const uint8_t *bytes, int32_t len)
   __CPROVER_assume(n >= buffer->count && n <= PEG_SCRN);
   buffer->count = n;
 }
-Janet h_stringv(const uint8_t *str, int32_t len) {
+JanetString h_string(const uint8_t *str, int32_t len) {
   __CPROVER_assert(len >= 0 && __CPROVER_r_ok(str, len), "C12 WINDOW: captured span is readable and has non-negative length");
-  Janet r; return r;
+  __CPROVER_assert(len == 0 || !__CPROVER_same_object(str, G_T0) || str + len <= G_S->text_end, "C12 WINDOW: captured text span lies inside the current window");
+  return (JanetString) G_STRP;
 }
 int h_scan_number_base(const uint8_t *str, int32_t len, int32_t base, double *out) {
   __CPROVER_assert(len >= 0 && __CPROVER_r_ok(str, len), "C12 WINDOW: number span is readable and has non-negative length");
@@ -258,11 +259,14 @@ void h_peg_rule(void) {
 
   /* grammar: symbolic well-formed bytecode, symbolic top rule */
   uint32_t clen = nd_u32(); __CPROVER_assume(clen <= PEG_NCONST);
-  uint32_t r0 = nd_u32(); __CPROVER_assume(r0 < PEG_BLEN && isstart[r0]);
-  __CPROVER_assume(peg_wf_chain(bc, isstart, clen, r0));
 #ifdef PEG_OP
-  __CPROVER_assume(bc[r0] == PEG_OP);
+  /* the rule under test sits at word 0 with a CONCRETE opcode (symbolic execution then follows only this opcode's
+   * case of the switch); all its operands, and every other word of the bytecode, are symbolic */
+  uint32_t r0 = 0; bc[0] = PEG_OP; isstart[0] = 1;
+#else
+  uint32_t r0 = nd_u32(); __CPROVER_assume(r0 < PEG_BLEN && isstart[r0]);
 #endif
+  __CPROVER_assume(peg_wf_chain(bc, isstart, clen, r0));
 #ifdef PEG_NOT_OP
   __CPROVER_assume(bc[r0] != PEG_NOT_OP);
 #endif
@@ -308,12 +312,63 @@ void h_peg_rule(void) {
   __CPROVER_assert(CAPS.count >= cap0 && SCR.count >= scr0 && TCAPS.count >= tcap0, "C12 captures present at entry are never cut by a rule");
   if (result != NULL) peg_event("return");
 #ifdef PEG_FAIL_RESTORES
-  /* opcodes that promise to leave nothing behind when they fail (thru/to, between, lenprefix) */
+  /* opcodes that promise to leave nothing behind when they fail (thru/to, between) */
   if (result == NULL) __CPROVER_assert(CAPS.count == cap0 && SCR.count == scr0 && TCAPS.count == tcap0 && TAGS.count == tcap0, "C12 BACKTRACK: a failed match of this rule leaves the capture stacks at the saved CapState");
+#endif
+  /* ---- documented meaning of the combinator under test (opcode-specific, selected by the unit) ---- */
+#ifdef PEG_SUCCESS_RESTORES_ALL
+  /* drop / not / to: a successful match leaves no capture of any kind behind */
+  if (result != NULL) __CPROVER_assert(CAPS.count == cap0 && SCR.count == scr0 && TCAPS.count == tcap0 && TAGS.count == tcap0, "C12 SEM: on success all capture stacks are back at their entry heights");
+#endif
+#ifdef PEG_SUCCESS_RESTORES_POS
+  /* only-tags: positional captures and accumulated text are discarded, tagged captures survive */
+  if (result != NULL) __CPROVER_assert(CAPS.count == cap0 && SCR.count == scr0, "C12 SEM: on success positional captures and accumulator are back at their entry heights");
+#endif
+#ifdef PEG_SUCCESS_ONE_CAPTURE
+  /* group / nth / replace / cmt / constant-like captures: the sub-captures are consumed and exactly ONE value is
+   * captured: positional in normal mode, appended to the accumulator in accumulate mode */
+  if (result != NULL) {
+    __CPROVER_assert(g_mode0 != PEG_MODE_NORMAL || (CAPS.count == cap0 + 1 && SCR.count == scr0), "C12 SEM: normal mode - exactly one new positional capture, accumulator unchanged");
+    __CPROVER_assert(g_mode0 != PEG_MODE_ACCUMULATE || (CAPS.count == cap0 && SCR.count >= scr0), "C12 SEM: accumulate mode - no positional capture, accumulator only grows");
+  }
+#endif
+#ifdef PEG_CONSUMES_NOTHING
+  __CPROVER_assert(result == NULL || result == text, "C12 SEM: the rule consumes no input");
+#endif
+#ifdef PEG_SEM_NCHAR
+  { uint32_t n = bc[r0 + 1]; size_t rem = wend - off;
+    __CPROVER_assert((rem >= n) ? (result == text + n) : (result == NULL), "C12 SEM: n matches iff at least n bytes remain in the window and consumes exactly n"); }
+#endif
+#ifdef PEG_SEM_NOTNCHAR
+  { uint32_t n = bc[r0 + 1]; size_t rem = wend - off;
+    __CPROVER_assert((rem < n) ? (result == text) : (result == NULL), "C12 SEM: -n matches iff fewer than n bytes remain in the window and consumes nothing"); }
+#endif
+#ifdef PEG_SEM_RANGE
+  { uint8_t lo = bc[r0 + 1] & 0xFF, hi = (bc[r0 + 1] >> 16) & 0xFF;
+    int ok = off < wend && buf[off] >= lo && buf[off] <= hi;
+    __CPROVER_assert(ok ? (result == text + 1) : (result == NULL), "C12 SEM: range matches exactly one byte lo <= c <= hi inside the window"); }
+#endif
+#ifdef PEG_SEM_SET
+  { int ok = off < wend && ((bc[r0 + 1 + (buf[off] >> 5)] >> (buf[off] & 0x1F)) & 1);
+    __CPROVER_assert(ok ? (result == text + 1) : (result == NULL), "C12 SEM: set matches exactly one byte whose bit is set, inside the window"); }
+#endif
+#ifdef PEG_SEM_LITERAL
+  { uint32_t len = bc[r0 + 1]; size_t rem = wend - off;
+    __CPROVER_assert(result == NULL || (rem >= len && result == text + len), "C12 SEM: a literal match consumes exactly len bytes, all inside the window");
+    __CPROVER_assert(rem >= len || result == NULL, "C12 SEM: a literal longer than the rest of the window does not match"); }
+#endif
+#ifdef PEG_SEM_READINT
+  { uint32_t w = bc[r0 + 1] & 0xF; size_t rem = wend - off;
+    __CPROVER_assert((rem >= w) ? (result == text + w) : (result == NULL), "C12 SEM: readint matches iff width bytes remain in the window and consumes exactly width"); }
 #endif
 #ifdef PEG_RECURSES
   if (g_calls > 0) REACH("normal return of peg_rule after at least one sub-match");
+#ifndef PEG_NO_SUCCESS
   if (g_calls > 0 && result != NULL) REACH("successful return of peg_rule after at least one sub-match");
+#endif
+#endif
+#ifndef PEG_RECURSES
+  if (result != NULL) REACH("successful return of peg_rule");
 #endif
   REACH("normal return of peg_rule");
 }
